@@ -542,10 +542,13 @@ def parse_body(kind, header, lines):
         stmts.append(t)
     # second pass: parse statements/terminators (skip cleanup blocks: unwinding is outside the claim)
     for bb, (ss, term) in list(b.blocks.items()):
-        if bb in b.cleanup:
-            b.blocks[bb] = ([], ("cleanup",))
-            continue
-        b.blocks[bb] = ([parse_statement(x) for x in ss], parse_terminator(term))
+        try:
+            b.blocks[bb] = ([parse_statement(x) for x in ss], parse_terminator(term))
+        except Exception:
+            if bb in b.cleanup:
+                b.blocks[bb] = ([], ("cleanup",))
+            else:
+                raise
     for n_, ty in b.args:
         b.locals.setdefault(n_, ty)
     return b
